@@ -60,6 +60,30 @@ def gen(rng, tier):
                 ops.append("%s %d %d" % (rng.choice(["Set", "Neg", "Abs"]), z, a))
         line = "P %d %d %d %d %d ; " % (nrecv, k, procs, rounds, gc) + " ; ".join([v.item() for v in vs] + ["O " + o for o in ops])
         yield dict(family="shared-operands-k%d" % k, vars=vs, ops=ops, line=line, big=True)
+    for c in gen_readers(rng, n):
+        yield c
+
+
+def gen_readers(rng, n):
+    """read-only methods (conversions, comparisons, encoders) on shared integer- and fraction-valued operands whose
+    mantissa is used in place by the conversion paths (exponent = 19 * words, a few words)"""
+    for _ in range(25 * n):
+        k = rng.choice([2, 8, 32])
+        procs = rng.choice([1, 4, 16])
+        vs = [C01.recv(rng, prec=rng.choice([0, 40, 100])), C01.recv(rng, prec=34)]
+        for _ in range(3):
+            w = rng.choice([1, 2, 2, 3, 4, 6])
+            c = int("".join("%019d" % rng.randint(B // 10 if i == 0 else 0, B - 1) for i in range(w)))
+            e = rng.choice([0, 0, 0, 1, 19, -1, -19, -5, 40])          # 0: integer with exponent = 19 * words
+            vs.append(fin(c, e, neg=rng.randint(0, 1), mode=rng.randint(0, 5)))
+        ops = []
+        for _ in range(rng.randint(4, 9)):
+            a, b = rng.randint(2, 4), rng.randint(2, 4)
+            ops.append(rng.choice(["Int %d" % a, "Int %d" % a, "Rat %d" % a, "Int64 %d" % a, "Uint64 %d" % a, "IsInt %d" % a,
+                                   "MinPrec %d" % a, "Cmp %d %d" % (a, b), "GobEncode %d" % a, "BitsExp %d" % a, "MantExp %d -" % a,
+                                   "Add %d %d %d" % (rng.randint(0, 1), a, b), "Mul %d %d %d" % (rng.randint(0, 1), a, b)]))
+        line = "P 2 %d %d %d %d ; " % (k, procs, rng.choice([1, 2]), rng.randint(0, 1)) + " ; ".join([v.item() for v in vs] + ["O " + o for o in ops])
+        yield dict(family="shared-readers-k%d" % k, vars=vs, ops=ops, line=line, big=True)
 
 
 def build(log):
